@@ -56,6 +56,15 @@ def models():
     return out
 
 
+def _user_distribution():
+    """Register the Laplace example that ships with the repository (example/weights/laplace.py), once per process."""
+    from sasmodels import weights
+    if "laplace" not in weights.DISTRIBUTIONS:
+        repo = os.environ.get("VERIF_REPO", "/repo")
+        weights.load_weights(os.path.join(repo, "example", "weights", "laplace.py"))
+    return "laplace" in weights.DISTRIBUTIONS
+
+
 def gen_cases(tier, seed):
     n = 4 if tier == "quick" else 60
     cases = []
@@ -324,8 +333,20 @@ def run_case(case, rec):
                 w = min(float(rng.uniform(0.05, 0.2)), 0.3*room/2.0)
                 if w > 0:
                     dist = ["gaussian", "schulz", "lognormal", "rectangle", "uniform"][int(rng.integers(5))]
+                    if (k + len(name)) % 5 == 2 and _user_distribution():
+                        # a user-defined distribution written as the polydispersity guide shows (the shipped Laplace example)
+                        dist = "laplace"
                     sas.add_pd(pars, p, dist, (11 if big else 4), w, 1.7 if dist == "rectangle" else 2.0)
                     rec.bucket("dist:" + dist)
+    if (k + len(name)) % 4 == 1 and name.startswith("core_"):
+        # (core-shell shapes: the particle is still there without the layer)  a layer of thickness exactly zero that still carries a (relative) distribution: zero stays zero under the scaling
+        thick = [p_ for p_ in i.parameters.call_parameters if p_.type == "volume" and "thick" in p_.name
+                 and p_.limits[0] <= 0 and p_.name in sas.active_names(i, pars) and p_.polydisperse]
+        if thick:
+            tp_ = thick[(k//4) % len(thick)]
+            pars[tp_.name] = 0.0
+            sas.add_pd(pars, tp_, ["gaussian", "rectangle", "uniform"][(k//4) % 3], 5, float(rng.uniform(0.2, 0.5)), 1.7)
+            rec.bucket("size-exactly-zero-with-distribution")
     if big and len([kk for kk in pars if kk.endswith("_pd_n") and pars[kk] == 11]) >= 2:
         rec.bucket("mesh>100")
     else:
